@@ -28,7 +28,8 @@ TRUSTED_BASE = [
     "handed to the model as integer durations, so the model only needs order and the harness's own sum",
     "LABELLED PEEKS of private state used as model inputs: _loss.get_probe_timeout(), _remote_max_idle_timeout, "
     "_loss.spaces[*].ack_at, _loss.get_loss_detection_time(), _pacing_at (abstract timer sources), "
-    "_close_pending (did this receive call close()), len(_events); used as compared observable: _state class; "
+    "_close_pending (did this receive call close()) and the reason phrase of the _close_event it then recorded "
+    "(reserved-bits close vs. frame error), len(_events); used as compared observable: _state class; "
     "per-packet fate of a datagram is read from the endpoint's own qlog events (packet_received / packet_dropped)",
     "modelled, not verified: connection.py timer/closing logic as Gallina functions; recovery.py is an input",
 ]
@@ -270,16 +271,28 @@ class Tracer:
                     pk.append(p)
         became_term = pre["state"] != "TERMINATED" and post["state"] == "TERMINATED"
         nev = post["qlen"] - pre["qlen"] - (1 if became_term else 0)
-        if procs:
-            procs[0][1] = nev
-        elif nev:
-            pk.append([5, nev, 0, 0, self.idle_dl(now, post["pto"], post["remote"])])  # unexplained events: let it show
         if post["pending"] and not pre["pending"]:
-            if self.expect_reserved or not procs:
+            # this call closed the connection locally.  Classify by what the endpoint did (LABELLED PEEK of the
+            # close event it recorded), not by whether a qlog record exists: the reserved-bits check closes after
+            # decryption but before any payload / ack / idle bookkeeping, with or without a packet_received record.
+            ev = self.ep.conn._close_event
+            reserved = ev is not None and ev.reason_phrase == "Reserved bits must be zero"
+            if reserved:
+                last = evs[plevel[-1]] if plevel else None
+                if procs and last is not None and last[0] == "transport:packet_received" and last[1] is not None \
+                        and not last[1].get("frames") and pk and pk[-1] is procs[-1]:
+                    pk.pop()                     # the record belongs to the reserved-bits packet itself
+                    procs.pop()
+                pk.append([4])
+            elif not procs:
                 pk.append([4])
             else:
                 procs[-1][-2] = 1
         self.expect_reserved = False
+        if procs:
+            procs[0][1] = nev
+        elif nev:
+            pk.insert(0, [5, nev, 0, 0, self.idle_dl(now, post["pto"], post["remote"])])  # unexplained events: let it show
         names = {0: "stop", 1: "skip", 2: "vn", 3: "retry", 4: "reserved", 5: "proc"}
         return pk, "[%s]" % ",".join(names[p[0]] + ("+close" if p[0] == 5 and p[2] else "") + ("+err" if p[0] == 5 and p[-2] else "") for p in pk)
 
